@@ -233,7 +233,9 @@ class BracedNameToken(XPathToken):
             namespace = ''
         else:
             value = self.parser.next_token.value
-            assert isinstance(value, str)
+            if not isinstance(value, str):
+                # e.g. a numeric literal after the brace: use the source text of the token
+                value = self.parser.next_token.source
             namespace = value + self.parser.advance_until('}')
             namespace = collapse_white_spaces(namespace)
 
